@@ -194,6 +194,30 @@ func c26IRQCheck(c *Ctx) func(l *explore.Local, _ struct{}, cs c26IRQ) *explore.
 				return explore.Failf("a timer overflow during a frame does not raise the timer interrupt request", "overflow in machine cycle %d of the frame (master enable %v, IE=00): IF=%02x TIMA=%02x afterwards", k, (k/cs.Step)%2 != 0, g.parts.Mapper.Read(0xff0f), g.parts.Mapper.Read(0xff05))
 			}
 		}
+		// an overflow that is not caused by a counting step: the timer is stopped (TAC bit 2 cleared) while the selected
+		// divider bit is high and TIMA holds FF; the falling edge is one more increment, TIMA overflows, and the frame
+		// that follows must deliver the request (and the reload) like any other overflow
+		for _, tac := range []uint8{0x04, 0x05, 0x06, 0x07} {
+			g.parts.Mapper.Write(0xff07, 0x00)
+			for i := 0; i < 4; i++ {
+				g.parts.Timer.EndMachineCycle()
+			}
+			bit := map[uint8]uint16{0x04: 0x200, 0x05: 0x008, 0x06: 0x020, 0x07: 0x080}[tac]
+			g.parts.Timer.VSetCounter(bit)
+			g.parts.Mapper.Write(0xff07, tac)
+			g.parts.Mapper.Write(0xff06, 0x42)
+			g.parts.Mapper.Write(0xff05, 0xff)
+			g.parts.Mapper.Write(0xffff, 0x00)
+			g.parts.Mapper.Write(0xff0f, 0x00)
+			g.parts.Interrupts.Disable()
+			g.parts.Timer.EndMachineCycle()        // one cycle of running with the selected bit high (it stays high: +4)
+			g.parts.Mapper.Write(0xff07, tac&0x03) // stop
+			g.frame(ctx)
+			l.Trans(1)
+			if g.parts.Mapper.Read(0xff0f)&0x04 == 0 || g.parts.Mapper.Read(0xff05) != 0x42 {
+				return explore.Failf("a timer overflow during a frame does not raise the timer interrupt request", "TIMA=FF, TAC=%02x, selected divider bit high, then TAC=%02x (timer stopped: the falling edge overflows TIMA) just before the frame: IF=%02x TIMA=%02x afterwards (TMA=42)", tac, tac&3, g.parts.Mapper.Read(0xff0f), g.parts.Mapper.Read(0xff05))
+			}
+		}
 		l.Eval(1)
 		l.Outcome(uint64(cs.From))
 		return nil
@@ -357,10 +381,33 @@ func c26LongCheck(c *Ctx) func(l *explore.Local, _ struct{}, cs c26Long) *explor
 			}
 			l.Trans(1)
 		}
+		if strings.HasPrefix(cs.ROM, "synthetic:mbc3-clock") {
+			// what the GUEST saw of the cartridge clock (it sends every new value of the latched seconds register to the
+			// serial port): one value per 1,048,576 machine cycles, counting up from 00 — the hook above reads the clock
+			// the frame loop steps, the guest reads the clock the cartridge answers with; they must be the same clock
+			total := int64(cs.Frames) * 17556
+			n := int(total / 1048576)
+			got := g.serial.Bytes()
+			okLen := len(got) == n+1 || (len(got) == n && total%1048576 < 300)
+			for i, b := range got {
+				if int(b) != i%60 {
+					okLen = false
+				}
+			}
+			if !okLen {
+				return explore.Failf("the cartridge clock the guest reads does not advance with the frames", "%s: after %d frames (%d machine cycles = %.2f s) the guest has seen the seconds values % x, expected 00..%02x", cs.ROM, cs.Frames, total, float64(total)/1048576, tail(string(got), 12), n%60)
+			}
+		}
 		l.Eval(1)
 		l.Outcome(uint64(cs.Frames))
 		return nil
 	}
+}
+
+func init() {
+	c26Synthetic["synthetic:mbc3-clock-0f"] = append([]byte(nil), c24ClockROM...)
+	c26Synthetic["synthetic:mbc3-clock-0f"][0x147] = 0x0f
+	c26Synthetic["synthetic:mbc3-clock-0f"][0x149] = 0x00
 }
 
 func init() {
@@ -410,9 +457,9 @@ func init() {
 		if c.Thorough() {
 			long = 62_000
 		}
-		explore.Product(c.R, "long-run", explore.PartOpt{Bound: fmt.Sprintf("%d frames of the real runFrame, every frame measured (thorough: past 2^32 clock cycles)", long), Domain: "synthetic guest with LCD and sound off (ROM only), and the MBC3 guest that polls the cartridge clock"},
+		explore.Product(c.R, "long-run", explore.PartOpt{Bound: fmt.Sprintf("%d frames of the real runFrame, every frame measured (thorough: past 2^32 clock cycles)", long), Domain: "synthetic guest with LCD and sound off (ROM only), and the MBC3 guests (cartridge types 10 and 0F) that poll the cartridge clock and report every new second they see"},
 			func(yield func(c26Long) bool) {
-				for _, r := range []string{"synthetic:lcd-and-sound-off", "synthetic:mbc3-clock"} {
+				for _, r := range []string{"synthetic:lcd-and-sound-off", "synthetic:mbc3-clock", "synthetic:mbc3-clock-0f"} {
 					if !yield(c26Long{ROM: r, Frames: long}) {
 						return
 					}
